@@ -17,10 +17,27 @@ thread_local! {
 	static CUR: Cell<isize> = const { Cell::new(0) };
 	static PEAK: Cell<isize> = const { Cell::new(0) };
 	static MAX_REQ: Cell<usize> = const { Cell::new(0) };
+	static PAUSED: Cell<bool> = const { Cell::new(false) };
+}
+
+/// Run `f` without attributing its allocations to the call being measured (fixtures built lazily; the response a
+/// serving handler builds by design).  The process-wide cap still applies.
+pub fn unmeasured<R, F: FnOnce() -> R>(f: F) -> R {
+	let was = PAUSED.try_with(|p| p.replace(true)).unwrap_or(false);
+	let r = f();
+	let _ = PAUSED.try_with(|p| p.set(was));
+	r
+}
+#[inline]
+fn paused() -> bool {
+	PAUSED.try_with(|p| p.get()).unwrap_or(false)
 }
 
 #[inline]
 fn add(sz: usize) {
+	if paused() {
+		return;
+	}
 	let _ = CUR.try_with(|c| {
 		let v = c.get() + sz as isize;
 		c.set(v);
@@ -38,11 +55,15 @@ fn add(sz: usize) {
 }
 #[inline]
 fn sub(sz: usize) {
+	if paused() {
+		return;
+	}
 	let _ = CUR.try_with(|c| c.set(c.get() - sz as isize));
 }
 
 /// start measuring on this thread
 pub fn begin() {
+	let _ = PAUSED.try_with(|p| p.set(false));
 	let _ = CUR.try_with(|c| c.set(0));
 	let _ = PEAK.try_with(|c| c.set(0));
 	let _ = MAX_REQ.try_with(|c| c.set(0));
